@@ -57,6 +57,30 @@ func c03Harness(full bool) mc.Harness {
 				outcome = fmt.Sprintf("%x", hashBytes([]byte(got.String())))
 			}
 		}
+		// the same block inside every container (no padding after it: the block ends with its last value)
+		if full {
+			for _, c := range containers[1:] {
+				cdoc := c.build(rec, lay, byteOrders[bo], 0)
+				ep := c.entries[len(c.entries)-1]
+				pristine()
+				d := runDecode(ep.f, cdoc.B)
+				where := fmt.Sprintf("%s(%s)", ep.name, c.name)
+				if d.Panic != nil {
+					failPanic(x, d.Panic, where, cdoc.B, map[string]string{"record": rec.Describe()})
+					continue
+				}
+				if d.Err != nil {
+					x.Fail(fmt.Sprintf("mismatch|%s|%s|error", where, x.DevLabels()), fmt.Sprintf("%s returned error %v for a well-formed forward-layout block [deviations %s]", where, d.Err, x.DevLabels()),
+						map[string]string{"input_hex": hexInput(cdoc.B), "record": rec.Describe()})
+					continue
+				}
+				got := obs.Exif(d.Exif, false)
+				cwant := obs.ExpectExif(rec, c.imageType)
+				if diff := obs.Diff(got, cwant, nil); len(diff) > 0 {
+					failMismatch(x, where, got, cwant, diff, cdoc.B, map[string]string{"record": rec.Describe(), "layout": fmt.Sprintf("%+v", lay), "byte_order": boName[bo]})
+				}
+			}
+		}
 		x.Outcome = outcome
 		x.Note("record", truncateStr(rec.Describe(), 400))
 		x.Note("layout", fmt.Sprintf("%+v", lay))
@@ -82,7 +106,7 @@ func init() {
 			}
 			return []mc.Space{
 				{Name: "full-record", H: c03Harness(true), Bound: bFull, Isolate: true,
-					Rule: "full 48-field record in canonical forward layout; deviations: one field's value/type/absence from its boundary menu, or one layout axis (first-IFD offset, block order, padding, value order, foreign tags, IFD1, trailing bytes); both byte orders free; entries: Decode and exif2.Parse; non-trivial = every execution"},
+					Rule: "full 48-field record in canonical forward layout; deviations: one field's value/type/absence from its boundary menu, or one layout axis (first-IFD offset, block order, padding, value order, foreign tags, IFD1, trailing bytes); both byte orders free; entries: Decode and exif2.Parse on the bare TIFF, and the same block embedded in JPEG, PNG, CR3 (split over CMT1/2/4) and HEIF through DecodeJPEG, DecodePng, DecodeCR3, DecodeHeif; non-trivial = every execution"},
 				{Name: "sparse-record", H: c03Harness(false), Bound: bEmpty, Isolate: true,
 					Rule: "empty record plus every subset of <= bound fields present (absent fields must be zero); block order and IFD1 free; trivial = the empty record"},
 			}
